@@ -52,8 +52,10 @@ def run(ctx):
         return
     try:
         def has_fs(c):
+            # private helpers of the emitter's module (the write itself, the computation of the sibling names, ..)
             h = p.fns.get(c.resolved or "")
-            return h is not None and h.crate == fn.crate and any(effects.is_fs_mutating(cc) for cc in h.calls())
+            return h is not None and h.crate == fn.crate and h.kind != "Closure" and (
+                any(effects.is_fs_mutating(cc) for cc in h.calls()) or "emitter::files_with_backup::" in h.id)
         paths = explore(fn, is_effect=effects.is_fs_mutating, pure=pure, program=p, inline=has_fs)
     except TooManyPaths as e:
         r.undecidable("R20-a", str(e))
